@@ -181,7 +181,8 @@ def case_strategy(draw, tier):
         init = [[draw(st.sampled_from(["ok", "ok", "absent", "dynshut"])) if wells[w]["from"] == 0 else "absent",
                  [draw(rate_int) for _ in range(6)]] for w in range(nwells)]
     return {"units": units, "start": draw(st.sampled_from(STARTS)), "parents": parents, "wells": wells,
-            "steps": steps, "init": init, "dup_summary": draw(st.integers(0, 4)) == 0}
+            "steps": steps, "init": init, "dup_summary": draw(st.integers(0, 4)) == 0,
+            "udq_flit": draw(st.integers(0, 3)) == 0}
 
 
 # ------------------------------------------------------------------------------------------------ model
@@ -276,7 +277,12 @@ class Model:
             # the same vectors requested a second time (explicit names / wildcard): still one vector each
             L += ["WOPT", " '%s' /" % self.wnames[0], "WWIT", " 'W*' /", "GOPT", " '%s' /" % self.gnames[0],
                   "GWIT", "/", "FOPT", "FGIT", "WOPR", "/", "WLPT", "/"]
-        L += ["SCHEDULE", "GRUPTREE"]
+        L.append("SCHEDULE")
+        if c.get("udq_flit"):
+            # FLIR / FLIT (field liquid injection rate / total) are not SUMMARY-section keywords; a UDQ that uses
+            # them makes the evaluator compute them all the same
+            L += ["UDQ", " DEFINE FULA FLIT /", " DEFINE FULB FLIR /", "/"]
+        L.append("GRUPTREE")
         for i, p in enumerate(c["parents"]):
             L.append(" '%s' '%s' /" % (self.gnames[i], "FIELD" if p < 0 else self.gnames[p]))
         L.append("/")
@@ -429,8 +435,9 @@ class Reference:
             D["VP"] = S(lst, lambda c: c[3])
             D["VI"] = S(lst, lambda c: c[4])
             D["LP"] = D["OP"] + D["WP"]
+            D["LI"] = D["OI"] + D["WI"]
             D["LPH"] = D["OPH"] + D["WPH"]
-        for q in ("OP", "WP", "GP", "LP", "VP", "OI", "WI", "GI", "VI"):
+        for q in ("OP", "WP", "GP", "LP", "VP", "OI", "WI", "GI", "VI", "LI"):
             out[key(prefix + q + "R")] = R[q]
             out[key(prefix + q + "T")] = self.add(key(prefix + q + "T"), T[q] * dt)
         for q in ("OP", "WP", "GP", "LP", "OI", "WI", "GI"):
@@ -516,7 +523,8 @@ class C09(Check):
             "prediction producers, water / gas / oil injectors), WEFAC and GEFAC set and changed at report steps, "
             "OPEN/SHUT/STOP changes, WCONHIST/WCONINJH observed rates changed at report steps, wells created at "
             "later report steps, wells moved to another group (WELSPECS) and groups re-parented (GRUPTREE) during "
-            "the run, SUMMARY vectors optionally requested twice, 1..7 report steps "
+            "the run, SUMMARY vectors optionally requested twice, FLIR/FLIT optionally requested through a UDQ "
+            "definition, 1..7 report steps "
             "(TSTEP or DATES) with 1..3 evaluations each (+ optional evaluation at t=0 and repeated evaluation at "
             "the same time).  out::Summary::eval is called with generated data::Wells (signed per-phase surface and "
             "reservoir rates, cross-flow signs, wells absent / dynamically SHUT carrying junk rates); every vector of "
@@ -537,7 +545,8 @@ class C09(Check):
         "groups exist from the first report step (their parents may change later); a well that is created at a "
         "later report step is absent from data::Wells before that step and its vectors may then be absent or zero",
         "vectors not accepted by the SUMMARY parser or absent from the evaluator table (WLIR, GLIT, V-history, "
-        "GOITH, G/F WGR/OGR, FLIR/FLIT ...) are not requested",
+        "GOITH, G/F WGR/OGR ...) are not requested; FLIR/FLIT (evaluator table only) are requested through a UDQ "
+        "definition in a quarter of the cases",
     ]
     EXAMPLES = {"quick": 80, "thorough": 1500}       # per shard (16 shards); ~0.16 s per case on a free core
     MIN_EVALS = {"quick": 600, "thorough": 8000}
@@ -570,6 +579,8 @@ class C09(Check):
             labels.append("zero-length-step")
         if case["dup_summary"]:
             labels.append("dup-summary-request")
+        if case.get("udq_flit"):
+            labels.append("udq-requests-FLIR-FLIT")
         if any(s["regroup"] for s in case["steps"]):
             labels.append("group-reparented")
         if any(s["move"] for s in case["steps"]):
@@ -652,8 +663,10 @@ class C09(Check):
     def check(self, case, ctx):
         m = Model(case)
         evs = m.evals()
+        fkeys = F_KEYS + T_KEYS + (["FLIR", "FLIT"] if case.get("udq_flit") else [])
         rep = ctx.P.call("summary_run", deck=m.deck(), wells=m.wnames, groups=m.gnames, wkeys=W_KEYS, gkeys=G_KEYS,
-                         fkeys=F_KEYS + T_KEYS, evals=[m.wire(e) for e in evs])
+                         fkeys=fkeys, evals=[m.wire(e) for e in evs])
+        deferred = None      # a violation with a known_findings key is reported only if nothing else is wrong
 
         def V(rule, detail, key=None):
             return {"rule": rule, "detail": detail, "key": key}
@@ -673,7 +686,7 @@ class C09(Check):
             if hexf(got["elapsed"]) != float(ev[1]):
                 return V("SummaryState elapsed time after eval", {"eval": i, "got": hexf(got["elapsed"]), "want": ev[1]})
             for level, names, keys, vals in (("W", m.wnames, W_KEYS, got["w"]), ("G", m.gnames, G_KEYS, got["g"]),
-                                             ("F", [""], F_KEYS + T_KEYS, [got["f"]])):
+                                             ("F", [""], fkeys, [got["f"]])):
                 for ni, name in enumerate(names):
                     for ki, k in enumerate(keys):
                         full = k + ":" + name if name else k
@@ -699,8 +712,12 @@ class C09(Check):
                         # (+1e-13 absolute for exact zeros) leaves 4 orders of margin and is 8 orders below the
                         # smallest wrong-factor defect (factor 0.9).
                         if abs(g - w) > 1e-10 * abs(w) + 1e-13:
-                            return V("vector differs from its definition",
-                                     {"eval": i, "report_step": ev[0], "secs": ev[1], "vector": full, "got": g,
-                                      "want": w, "units": case["units"]}, "value:" + k)
+                            v = V("vector differs from its definition",
+                                  {"eval": i, "report_step": ev[0], "secs": ev[1], "vector": full, "got": g,
+                                   "want": w, "units": case["units"]}, "value:" + k)
+                            if k == "FLIT":
+                                deferred = deferred or v
+                                continue
+                            return v
         ctx.label("values-compared", ncmp)
-        return None
+        return deferred
